@@ -1952,6 +1952,8 @@ def _map_lane(x, f):
         return Arr2([Lane(f(c.t), c.n, c.mask) for c in x.cols], x.n)
     if hasattr(x, 'sym_map'):
         return x.sym_map(f)
+    if isinstance(x, ConcArr):
+        return ConcArr(_deep_map(x.data, lambda d: Sym(f(to_term(d)))))
     raise Unsupported('elementwise scipy function on %r' % (x,))
 
 
@@ -3028,6 +3030,18 @@ def _ca_getattr2(self, interp, name):
         return lambda: ConcArr(_flat(self.data) if self.data and isinstance(self.data[0], list) else list(self.data))
     if name == 'dtype':
         return 'float64'
+    if name in ('all', 'any'):
+        def fold(axis=None, **kw):
+            flat = _flat(self.data) if self.data and isinstance(self.data[0], list) else list(self.data)
+            ts = []
+            for v in flat:
+                b = _ca_bool(v)
+                if b is None:
+                    b = _ca_bool(_bool(v))
+                ts.append(ir.const(b) if isinstance(b, bool) else b.t)
+            t = ir.and_(*ts) if name == 'all' else ir.or_(*ts)
+            return bool(t is ir.TRUE) if t in (ir.TRUE, ir.FALSE) else Sym(t)
+        return fold
     raise Unsupported('ConcArr.' + name)
 
 
@@ -3067,6 +3081,15 @@ def _ca_truth(self, interp):
 
 
 ConcArr.sym_truth = _ca_truth
+
+
+def _ca_unpack(self, interp, n):
+    if len(self.data) != n:
+        _raise('ValueError', 'not enough values to unpack' if len(self.data) < n else 'too many values to unpack')
+    return [ConcArr(x) if isinstance(x, list) else x for x in self.data]
+
+
+ConcArr.sym_unpack = _ca_unpack
 
 
 def _ca_ge_all(t, others, strict_before=()):
@@ -3362,3 +3385,67 @@ BUILTINS.update({'sorted': _sorted3, 'list': _list3, 'set': _set3})
 for _nm in ('list', 'set'):
     if _nm in _CTYPES:
         _CTYPES[_nm] = CallableType(_TYPE_NAMES[_nm], BUILTINS[_nm])
+
+
+# ------------------------------------------------------------------------------------------------
+# column-wise reductions of (n, k) arrays, symbolic per-axis masks, corrcoef  (idioms met in changed code)
+# ------------------------------------------------------------------------------------------------
+
+def _arr2_colreduce(kind):
+    def f(self, axis=None, **kw):
+        if axis == 0:
+            return ConcArr([getattr(c, kind)() for c in self.cols])
+        raise Unsupported('Arr2.%s(axis=%r)' % (kind, axis))
+    return f
+
+
+Arr2.min = _arr2_colreduce('min')
+Arr2.max = _arr2_colreduce('max')
+
+
+def np_ptp(x, axis=None, **kw):
+    """np.ptp: max - min (per column for axis=0)"""
+    x = _num(x)
+    if isinstance(x, Arr2) and axis == 0:
+        return ConcArr([values.binop('sub', c.max(), c.min()) for c in x.cols])
+    if isinstance(x, Lane):
+        return values.binop('sub', x.max(), x.min())
+    raise Unsupported('np.ptp(%r, axis=%r)' % (x, axis))
+
+
+_old_np_isclose = np_isclose
+
+
+def np_isclose2(a, b, rtol=1e-05, atol=1e-08, **kw):
+    if isinstance(a, ConcArr) or isinstance(b, ConcArr):
+        A = a.data if isinstance(a, ConcArr) else [a] * len(b.data)
+        B = b.data if isinstance(b, ConcArr) else [b] * len(a.data)
+        return ConcArr([_old_np_isclose(x, y, rtol, atol) for x, y in zip(A, B)])
+    return _old_np_isclose(a, b, rtol, atol)
+
+
+def np_corrcoef(x, y=None, rowvar=True, **kw):
+    """np.corrcoef(X, rowvar=False): Pearson correlation matrix of the columns (the same contract as DataFrame.corr)"""
+    from . import pdmodel
+    x = _num(x)
+    if y is not None or rowvar or not isinstance(x, Arr2):
+        raise Unsupported('np.corrcoef in this form')
+    m = pdmodel.corr_matrix(list(x.cols), list(range(len(x.cols))), 'pearson')
+    return ConcArr([list(r) for r in m.data])
+
+
+NP._table.update({'ptp': np_ptp, 'isclose': np_isclose2, 'corrcoef': np_corrcoef})
+
+_old_ca_selector = _ca_selector
+
+
+def _ca_selector2(k, size):
+    """a per-axis boolean mask with symbolic entries is decided entry by entry (case split; the path condition remembers)"""
+    if isinstance(k, ConcArr) and k.data and not isinstance(k.data[0], list):
+        bs = [_ca_bool(v) for v in k.data]
+        if bs and all(b is not None for b in bs) and any(isinstance(b, Sym) for b in bs):
+            return 'mask', [b if isinstance(b, bool) else bool(State.ctx.branch(b.t)) for b in bs]
+    return _old_ca_selector(k, size)
+
+
+_ca_selector = _ca_selector2
